@@ -68,25 +68,13 @@ Theorem C02_rt_is_modular_shifts_partial : forall lt rt a b,
 Proof. exact rt_shifts_modular_partial. Qed.
 Print Assumptions C02_rt_is_modular_shifts_partial.
 
-(* rt_bin is the value of an operator result once STORED (or passed); rt_nested_l is the value when
-   the inner result is consumed directly by the outer operator.  Full statement
-   Proofs.rt_context_independent (nested = stored first, for every non-comparison inner operator,
-   every outer operator, all types and values).  Since 1d3f0fa results narrower than C int are cast
-   to their type; STILL FALSE for `///` of mixed signedness on a result type narrower than int,
-   emitted as ((T)l / (T)r) and not cast back: (int8(-128) /// uint8(255)) > 0 is true nested,
-   false stored *)
-Theorem C02_rt_context_independent_refuted : ~ rt_context_independent.
-Proof. exact rt_context_independent_refuted. Qed.
-Print Assumptions C02_rt_context_independent_refuted.
-
-(* ... true for every inner operator except `///` / `%%%` of mixed signedness on a result type
-   narrower than int, for every outer operator, all types and ALL values *)
-Theorem C02_rt_context_independent_partial : forall o1 o2 t1 t2 t3 a b c,
-  wf_ity t1 -> wf_ity t2 -> is_cmpop o1 = false ->
-  ~ (mixed t1 t2 = true /\ (o1 = Btdiv \/ o1 = Btmod) /\ bits (rt_type o1 t1 t2) < 32) ->
-  rt_nested_l o1 o2 t1 t2 t3 a b c = rt_stored_l o1 o2 t1 t2 t3 a b c.
-Proof. exact rt_context_independent_partial. Qed.
-Print Assumptions C02_rt_context_independent_partial.
+(* rt_bin is the value of an operator result once STORED (or passed); rt_nested_l is its value when
+   consumed directly by another operator.  Since 1d3f0fa / 8eb30df every result narrower than C int
+   is cast to its type, and the two coincide: for every non-comparison inner operator, every outer
+   operator, all types and ALL values (Proofs.rt_context_independent, full strength) *)
+Theorem C02_rt_context_independent : rt_context_independent.
+Proof. exact rt_context_independent_holds. Qed.
+Print Assumptions C02_rt_context_independent.
 
 (* comparisons: exact on both sides, for all types (mixed signedness included) and values *)
 Theorem C02_comparisons_agree : forall o lt rt a b, wf_ity lt -> wf_ity rt -> is_cmpop o = true ->
